@@ -8,11 +8,13 @@ SPEC = dc.spec(
                "the execution of the not-yet-checkpointed TGs, whose ids strictly ascend), C05_only_intact (for ARBITRARY log contents "
                "the scan keeps a TG only if its body is followed by a matching checksum record).  The schedule quantifier is unbounded "
                "(no bound on transactions or rotations).",
-    level_note="No axioms.  The tie runs the real code in SYNCHRONOUS mode with CreateCheckpoint and the rotation branch "
-               "(Truncate(0); WriteStatus) driven by the history, so that checkpoints and rotations interleave with requests and "
-               "crashes at every system-call boundary; the recorded WAL message sequence must be the one the model generates from "
-               "the schedule.  Real timer-driven interleavings (SyncWAL goroutine with concurrent writers) are NOT replayed against "
-               "the model (see notes/C05.md): the loop's arms are covered by the theorem's schedule quantifier, the goroutine "
-               "scheduling itself is C07/C18's subject.",
+    level_note="No axioms.  The tie runs the real code two ways: (a) SYNCHRONOUS mode with CreateCheckpoint and the rotation branch "
+               "(Truncate(0); WriteStatus) as history steps; (b) the REAL writer goroutine SyncWAL(20ms, 30-70ms, rotate=2) with a "
+               "writer issuing the requests: timer flushes, requested flushes, timer checkpoints and rotations interleave as the Go "
+               "scheduler and the timers decide.  The schedule is read off the recorded WAL message sequence (TG id gaps = timer "
+               "flushes on an empty queue) and the model must generate exactly the recorded system calls from it; every crash prefix "
+               "is recovered by the real code and by the model.  In (b) buckets are created through the catalog before the loop "
+               "starts and there is ONE writer: calls of concurrent goroutines interleaving inside one loop step are not described "
+               "by the model's atomic steps (C07/C18's subject); acknowledgement markers are compared up to their position.",
     design_ref="§6 C05",
     rule=dc.RULE + "  C05: every history has checkpoints (30% of the steps) and rotations (35% of the checkpoints), up to 9 steps.")
